@@ -74,19 +74,28 @@ def compile_text(ctx, text: str, flags: int = 0, custom=None, cache=True, persis
     me = Obj(_cls='css_parser.CSSParser', _name='parser')
     opts = {'regex_engine': True, 'real_immutable': True, 'max_depth': 120, 'persist': persist if persist is not None else ctx._cache.setdefault('e2e-persist', {})}
     stubs = {'util.lower': strict_lower}
-    try:
-        # the custom map goes through process_custom, as in compile(): names are validated and a fresh table is built
-        table = call_function(ctx, 'css_parser.process_custom', [dict(custom)], {}, stubs, None, opts) if custom is not None else None
-        call_function(ctx, 'css_parser.CSSParser.__init__', [text, table, flags], {}, stubs, me, opts)
-        res = call_function(ctx, 'css_parser.CSSParser.process_selectors', [], {}, stubs, me, opts)
-        out = Outcome(ir=describe(res))
-    except Raised as e:
-        msg = e.args_[0] if getattr(e, 'args_', None) and isinstance(e.args_[0], str) else None
-        out = Outcome(raises=e.exc_name, message=msg, extra={'args': tuple(a for a in (getattr(e, 'args_', None) or ()) if isinstance(a, (str, int)))})
-    except RecursionError:
-        raise AnalysisError(f'compiling {text!r}: the evaluator ran out of stack')
-    except Unsupported as e:
-        raise AnalysisError(f'compiling {text!r}: outside the evaluable fragment: {e}')
+    for attempt in (0, 1):
+        try:
+            # the custom map goes through process_custom, as in compile(): names are validated and a fresh table is built
+            table = call_function(ctx, 'css_parser.process_custom', [dict(custom)], {}, stubs, None, opts) if custom is not None else None
+            call_function(ctx, 'css_parser.CSSParser.__init__', [text, table, flags], {}, stubs, me, opts)
+            res = call_function(ctx, 'css_parser.CSSParser.process_selectors', [], {}, stubs, me, opts)
+            out = Outcome(ir=describe(res))
+        except Raised as e:
+            msg = e.args_[0] if getattr(e, 'args_', None) and isinstance(e.args_[0], str) else None
+            out = Outcome(raises=e.exc_name, message=msg, extra={'args': tuple(a for a in (getattr(e, 'args_', None) or ()) if isinstance(a, (str, int)))})
+        except RecursionError:
+            raise AnalysisError(f'compiling {text!r}: the evaluator ran out of stack')
+        except Unsupported as e:
+            if 'loop bound exceeded' in str(e) and len(text) < 200:
+                if attempt == 0:
+                    opts = dict(opts, loop_cap=DIVERGENCE_BOUND, max_steps=20_000_000)
+                    me = Obj(_cls='css_parser.CSSParser', _name='parser')
+                    continue
+                out = Outcome(raises='(no result)', message=f'one `while` loop ran more than {DIVERGENCE_BOUND} iterations: {e}')
+                break
+            raise AnalysisError(f'compiling {text!r}: outside the evaluable fragment: {e}')
+        break
     if cache:
         ctx._cache[key] = out
     return out
@@ -117,6 +126,9 @@ KINDS = {
 }
 
 
+DIVERGENCE_BOUND = 50_000
+
+
 def make_doc(spec, kind='html'):
     """(document object, nodes in document order, labels) for a tree specification (see sa.tables.build_tree)."""
     from .tables import build_tree
@@ -130,17 +142,25 @@ def api(ctx, fn: str, *args, **kwargs):
     from .props.sem import strict_lower
     opts = {'regex_engine': True, 'real_immutable': True, 'max_depth': 250, 'no_const_shortcut': True, 'max_steps': 5_000_000,
             'persist': ctx._cache.setdefault('e2e-persist-real', {})}
-    try:
-        r = call_function(ctx, f'__init__.{fn}', list(args), dict(kwargs), {'util.lower': strict_lower}, None, opts)
-        if fn == 'iselect' or (r is not None and not isinstance(r, (Obj, str, int, bool, list, tuple, dict))):
-            r = list(r)
-        return ('ok', r)
-    except Raised as e:
-        return ('raises', e.exc_name)
-    except RecursionError:
-        raise AnalysisError(f'soupsieve.{fn}{args[:1]!r}: the evaluator ran out of stack')
-    except Unsupported as e:
-        raise AnalysisError(f'soupsieve.{fn}({args[0]!r}, ...): outside the evaluable fragment: {e}')
+    for attempt in (0, 1):
+        try:
+            r = call_function(ctx, f'__init__.{fn}', list(args), dict(kwargs), {'util.lower': strict_lower}, None, opts)
+            if fn == 'iselect' or (r is not None and not isinstance(r, (Obj, str, int, bool, list, tuple, dict))):
+                r = list(r)
+            return ('ok', r)
+        except Raised as e:
+            return ('raises', e.exc_name)
+        except RecursionError:
+            raise AnalysisError(f'soupsieve.{fn}{args[:1]!r}: the evaluator ran out of stack')
+        except Unsupported as e:
+            if 'loop bound exceeded' in str(e):
+                if attempt == 0:
+                    # the working bound of 200 iterations per `while` is a guard of the evaluator, not a fact about the code: once
+                    # more with a bound no loop of the package comes near on the small inputs of the tables
+                    opts = dict(opts, loop_cap=DIVERGENCE_BOUND, max_steps=20_000_000)
+                    continue
+                return ('diverges', f'one `while` loop ran more than {DIVERGENCE_BOUND} iterations: {e}')
+            raise AnalysisError(f'soupsieve.{fn}({args[0]!r}, ...): outside the evaluable fragment: {e}')
 
 
 def label(n):
